@@ -7,7 +7,7 @@ own = json.load(open(os.path.join(ROOT, "selftest", "own_results.json")))
 notkept = json.load(open(os.path.join(ROOT, "selftest", "not_kept.json"))) if os.path.exists(os.path.join(ROOT, "selftest", "not_kept.json")) else []
 out = []
 out.append("## 11. Which checks catch which changes (catch matrix)\n")
-out.append("Every row below was produced by `selftest/final_matrix.sh`: each change applied to a scratch copy of `/repo`'s root\npackage, the pinned suite confirmed green, then the quick checks run against the copy (`VERIF_SEED=1`): **all 20 checks** for the own mutants and the two latest\nsub-agent rounds, the checks of the target property's family (flow C01–C05, C10, C18, C19 / batch and pool C06–C09, C11, C12,\nC17, C20 / store C13–C16) for the earlier rounds, which had all been run against all 20 checks while the machinery was\nbeing strengthened (a full matrix of 460 changes x 20 checks does not fit the time budget). "
+out.append("Every row below was produced by `selftest/final_matrix.sh`: each change applied to a scratch copy of `/repo`'s root\npackage, the pinned suite confirmed green, then the quick checks run against the copy (`VERIF_SEED=1`): **all 20 checks** for the own mutants and the two latest\nsub-agent rounds, the checks of the target property's family (flow C01–C05, C10, C18, C19 / batch and pool C06–C09, C11, C12,\nC17, C20 / store C13–C16) for the earlier rounds (a full matrix of 460 changes x 20 checks does not fit the time budget; rounds 1 and 2 were run\nagainst all 20 checks at an earlier state of the harness, `selftest/res_r1.json` and `res_r2.json`). "
            "\"target\" is the property the change was written against; a check other than the target that fires is a sibling detection\n(the attribution rule of §10 makes checks report only findings that contradict their own statement, so siblings fire\nonly when the change really breaks their property too). Full per-change records: `seeded/<id>/meta.json` (`detected_by`,\n`first_finding`, `needs_to_manifest`).\n")
 rounds = collections.OrderedDict()
 for m in metas:
